@@ -17,8 +17,17 @@ def walk(n, fn, ctx=None):
     for c in n.get("inner", []):
         walk(c, fn, ctx)
 
+INT_BITS = {"size_t": 64, "uint64_t": 64, "unsigned long": 64, "long": 64, "uint32_t": 32, "unsigned int": 32, "int": 32, "uint16_t": 16,
+            "unsigned short": 16, "short": 16, "uint8_t": 8, "unsigned char": 8, "char": 8, "int8_t": 8, "signed char": 8, "bool": 8, "_Bool": 8,
+            "int16_t": 16, "int32_t": 32, "int64_t": 64, "long long": 64, "unsigned long long": 64}
+
+def int_bits(t):
+    t = (t or "").replace("const ", "").replace("volatile ", "").strip()
+    return INT_BITS.get(t)
+
 def scan(cfg):
     globals_, assigns, allocsites, libc, notes = {}, set(), {}, set(), []
+    fields, narrowing = {}, {}
     src_prefix = os.path.join(cast.REPO, "src") + "/"
     for src in cfg["srcs"]:
         rel = os.path.relpath(src, os.path.join(cast.REPO, "src"))
@@ -66,6 +75,27 @@ def scan(cfg):
                     nm = f0.get("referencedDecl", {}).get("name")
                     if nm in ALLOC_PTRS:
                         allocsites[(rel, ctx, nm)] = allocsites.get((rel, ctx, nm), 0) + 1
+            if k == "RecordDecl" and n.get("name") and n.get("completeDefinition"):
+                infile = cur_file[0] or ""
+                if infile.startswith(src_prefix):
+                    for fdecl in n.get("inner", []):
+                        if fdecl.get("kind") == "FieldDecl":
+                            t = fdecl.get("type", {})
+                            b = int_bits(t.get("desugaredQualType") or t.get("qualType"))
+                            if b:
+                                fields[(n["name"], fdecl["name"])] = b
+            if k == "ImplicitCastExpr" and n.get("castKind") == "IntegralCast" and ctx is not None:
+                t = n.get("type", {})
+                to = int_bits(t.get("desugaredQualType") or t.get("qualType"))
+                inner = n.get("inner", [{}])[0]
+                ti = inner.get("type", {})
+                frm = int_bits(ti.get("desugaredQualType") or ti.get("qualType"))
+                lit = cast.strip(inner).get("kind") in ("IntegerLiteral", "CharacterLiteral")
+                if to and frm and to < frm and not lit:
+                    infile = cur_file[0] or ""
+                    if infile.startswith(src_prefix) and infile.endswith(".c"):
+                        key = (rel, ctx, frm, to)
+                        narrowing[key] = narrowing.get(key, 0) + 1
             if k == "DeclRefExpr":
                 nm = n.get("referencedDecl", {}).get("name")
                 if nm in LIBC_ALLOC and n.get("referencedDecl", {}).get("kind") == "FunctionDecl":
@@ -80,7 +110,9 @@ def scan(cfg):
         gl.append((name, where, fn, bool(is_const), writers))
     return {"globals": gl,
             "allocsites": sorted((f, fn, p, c) for (f, fn, p), c in allocsites.items()),
-            "libc": sorted(libc)}, notes
+            "libc": sorted(libc),
+            "fields": sorted((st, f, b) for (st, f), b in fields.items()),
+            "narrowing": sorted((f, fn, a, b, c) for (f, fn, a, b), c in narrowing.items())}, notes
 
 def q(s):
     return '"%s"' % s
@@ -100,5 +132,13 @@ def emit(inv):
     lines.append("(* direct references to libc allocation functions: (file, function, name) *)")
     lines.append("Definition gen_libc_refs : list (string * string * string) := [")
     lines.append(";\n".join("  (%s, %s, %s)" % (q(f), q(fn), q(n)) for (f, fn, n) in inv["libc"]))
+    lines.append("].")
+    lines.append("(* integer fields of the structs defined in src/: (struct, field, width in bits) *)")
+    lines.append("Definition gen_fields : list (string * string * N) := [")
+    lines.append(";\n".join("  (%s, %s, %d%%N)" % (q(st), q(f), b) for (st, f, b) in inv.get("fields", [])))
+    lines.append("].")
+    lines.append("(* implicit integer conversions to a narrower type in the .c files: (file, function, from bits, to bits, count) *)")
+    lines.append("Definition gen_narrowing : list (string * string * N * N * N) := [")
+    lines.append(";\n".join("  (%s, %s, %d%%N, %d%%N, %d%%N)" % (q(f), q(fn), a, b, c) for (f, fn, a, b, c) in inv.get("narrowing", [])))
     lines.append("].")
     return "\n".join(lines) + "\n"
